@@ -501,4 +501,185 @@ theorem pickBest_minimal (lt : Circ → Circ → Bool)
         exact hneg _ _ _ h1 (ih best best (by simp))
       · exact ih best y (by simp [hy])
 
+/-! ## jobs handed to the runtime (ParallelDo branches, ForEach bodies) -/
+/-- `_sub_do_work` on a job terminates with `r` -/
+def SubRuns (env : Env) (t : Tree) (w : World) (s : St) (r : Res) : Prop :=
+  ∃ r0, Runs env t { w with script := [] } s r0 ∧ r = subFinish w s r0
+
+theorem subRuns_iff (env : Env) (t : Tree) (w : World) (s : St) (r : Res) :
+    SubRuns env t w s r ↔ ∃ n, subDoWork (exec env n) t w s = some r := by
+  unfold SubRuns subDoWork Runs
+  constructor
+  · rintro ⟨r0, ⟨n, hn⟩, rfl⟩
+    exact ⟨n, by simp [hn]⟩
+  · rintro ⟨n, hn⟩
+    cases hf : exec env n t { w with script := [] } s with
+    | none => simp [hf] at hn
+    | some r0 =>
+      simp only [hf, Option.some.injEq] at hn
+      exact ⟨r0, ⟨n, hf⟩, hn.symm⟩
+
+/-- the jobs of one `map`, run one after the other with the oracles threaded through -/
+inductive JobsRun {α : Type} (sub : World → α → Res → Prop) : World → List α → List Res → World → Prop
+  | nil (w : World) : JobsRun sub w [] [] w
+  | cons {w : World} {x : α} {xs : List α} {r : Res} {rs : List Res} {w' : World} :
+      sub w x r → JobsRun sub r.w xs rs w' → JobsRun sub w (x :: xs) (r :: rs) w'
+
+theorem JobsRun.length {α : Type} {sub : World → α → Res → Prop} {w : World} {xs : List α}
+    {rs : List Res} {w' : World} (h : JobsRun sub w xs rs w') : rs.length = xs.length := by
+  induction h with
+  | nil => rfl
+  | cons _ _ ih => simp [ih]
+
+theorem mapM'_runs {α : Type} (F : Nat → World → α → Option Res)
+    (hmono : ∀ n m, n ≤ m → ∀ w x r, F n w x = some r → F m w x = some r) :
+    ∀ (xs : List α) (w : World) (rs : List Res) (w' : World),
+      (∃ n, mapM' (F n) w xs = some (rs, w')) ↔
+        JobsRun (fun w x r => ∃ n, F n w x = some r) w xs rs w' := by
+  intro xs
+  induction xs with
+  | nil =>
+    intro w rs w'
+    constructor
+    · rintro ⟨n, hn⟩
+      simp only [mapM', Option.some.injEq, Prod.mk.injEq] at hn
+      obtain ⟨h1, h2⟩ := hn
+      subst h1; subst h2
+      exact JobsRun.nil w
+    · intro h
+      cases h
+      exact ⟨0, rfl⟩
+  | cons x xs ih =>
+    intro w rs w'
+    constructor
+    · rintro ⟨n, hn⟩
+      simp only [mapM'] at hn
+      cases hF : F n w x with
+      | none => simp [hF] at hn
+      | some r =>
+        simp only [hF] at hn
+        cases hm : mapM' (F n) r.w xs with
+        | none => simp [hm] at hn
+        | some p =>
+          obtain ⟨rs', w''⟩ := p
+          simp only [hm, Option.some.injEq, Prod.mk.injEq] at hn
+          obtain ⟨h1, h2⟩ := hn
+          subst h1; subst h2
+          exact JobsRun.cons ⟨n, hF⟩ ((ih r.w rs' w'').mp ⟨n, hm⟩)
+    · intro h
+      cases h with
+      | cons h1 h2 =>
+        rename_i r rs'
+        obtain ⟨n1, hn1⟩ := h1
+        obtain ⟨n2, hn2⟩ := (ih r.w rs' w').mpr h2
+        refine ⟨max n1 n2, ?_⟩
+        simp only [mapM']
+        rw [hmono n1 (max n1 n2) (by omega) _ _ _ hn1]
+        have := mapM'_mono (F := F n2) (G := F (max n1 n2))
+          (fun w x r hx => hmono n2 (max n1 n2) (by omega) w x r hx) xs r.w _ hn2
+        simp [this]
+
+theorem subDoWork_exec_mono (env : Env) (n m : Nat) (h : n ≤ m) (t : Tree) (w : World) (s : St)
+    (r : Res) (hr : subDoWork (exec env n) t w s = some r) : subDoWork (exec env m) t w s = some r :=
+  subDoWork_mono (exec_mono env n m h) t w s r hr
+
+/-- ParallelDo: the awaited branches run as jobs on copies of the state; then `parFinish` -/
+theorem runs_par (env : Env) (ws : List Tree) (lt : Cond) (pf : Bool) (w : World) (s : St) (r : Res) :
+    Runs env (.par ws lt pf) w s r ↔
+      match arrivedOf pf ws.length w with
+      | none => r = Res.fail [] s w .runtime
+      | some (idxs, w0) =>
+        ∃ rs w2,
+          JobsRun (fun w (j : Tree × Nat) r => SubRuns env j.1 w s r) w0
+            (ws.zipIdx.filter (fun (j : Tree × Nat) => idxs.contains j.2)) rs w2 ∧
+          r = parFinish env lt s idxs (ws.zipIdx.filter (fun (j : Tree × Nat) => idxs.contains j.2)) rs w2 := by
+  rw [runs_iff_step]
+  simp only [execStep, parM]
+  cases ha : arrivedOf pf ws.length w with
+  | none => simp [eq_comm]
+  | some x =>
+    obtain ⟨idxs, w0⟩ := x
+    simp only
+    have hF := mapM'_runs (fun n w (j : Tree × Nat) => subDoWork (exec env n) j.1 w s)
+      (fun n m h w x r hr => subDoWork_exec_mono env n m h _ _ _ _ hr)
+      (ws.zipIdx.filter (fun (j : Tree × Nat) => idxs.contains j.2))
+    have hsub : (fun w (j : Tree × Nat) r => ∃ n, subDoWork (exec env n) j.1 w s = some r) =
+        (fun w (j : Tree × Nat) r => SubRuns env j.1 w s r) := by
+      funext w j r; exact propext (subRuns_iff env j.1 w s r).symm
+    constructor
+    · rintro ⟨n, hn⟩
+      cases hm : mapM' (fun w (j : Tree × Nat) => subDoWork (exec env n) j.1 w s) w0
+          (ws.zipIdx.filter (fun (j : Tree × Nat) => idxs.contains j.2)) with
+      | none => rw [hm] at hn; cases hn
+      | some p =>
+        obtain ⟨rs, w2⟩ := p
+        rw [hm] at hn
+        refine ⟨rs, w2, ?_, (Option.some.inj hn).symm⟩
+        rw [← hsub]
+        exact (hF w0 rs w2).mp ⟨n, hm⟩
+    · rintro ⟨rs, w2, hj, hr⟩
+      rw [← hsub] at hj
+      obtain ⟨n, hn⟩ := (hF w0 rs w2).mpr hj
+      exact ⟨n, by rw [hn, hr]⟩
+
+/-- ForEachBlockPass: unknown filter name -> raises first; no block -> records `[]`; otherwise the
+body runs as one job per collected block, then `feFinish` -/
+theorem runs_forEach (env : Env) (cfg : FECfg) (body : Tree) (w : World) (s : St) (r : Res) :
+    Runs env (.forEach cfg body) w s r ↔
+      if feUnknown env cfg then r = Res.fail [] s w .value
+      else if (feBlocks env w.blocks cfg (feRoom s).circ).isEmpty then
+        r = ⟨[], { feRoom s with data := feAppendRec (feRoom s).data (.list []) }, w, .ok⟩
+      else
+        match feJobs w.blocks cfg (feRoom s) (feBlocks env w.blocks cfg (feRoom s).circ) with
+        | .error e => r = Res.fail [] (feRoom s) w e
+        | .ok jobs =>
+          ∃ rs w1,
+            JobsRun (fun w (j : BlockJob) r => SubRuns env body w ⟨j.sub, j.bd⟩ r) w jobs rs w1 ∧
+            r = feFinish env cfg (feRoom s) jobs rs w1 := by
+  rw [runs_iff_step]
+  simp only [execStep, forEachM]
+  by_cases hu : feUnknown env cfg
+  · simp [hu, eq_comm]
+  · simp only [hu, Bool.false_eq_true, if_false]
+    by_cases he : (feBlocks env w.blocks cfg (feRoom s).circ).isEmpty
+    · simp [he, eq_comm]
+    · simp only [he, Bool.false_eq_true, if_false]
+      cases hj : feJobs w.blocks cfg (feRoom s) (feBlocks env w.blocks cfg (feRoom s).circ) with
+      | error e => simp [eq_comm]
+      | ok jobs =>
+        simp only
+        have hF := mapM'_runs (fun n w (j : BlockJob) => subDoWork (exec env n) body w ⟨j.sub, j.bd⟩)
+          (fun n m h w x r hr => subDoWork_exec_mono env n m h _ _ _ _ hr) jobs
+        have hsub : (fun w (j : BlockJob) r => ∃ n, subDoWork (exec env n) body w ⟨j.sub, j.bd⟩ = some r) =
+            (fun w (j : BlockJob) r => SubRuns env body w ⟨j.sub, j.bd⟩ r) := by
+          funext w j r; exact propext (subRuns_iff env body w _ r).symm
+        constructor
+        · rintro ⟨n, hn⟩
+          cases hm : mapM' (fun w (j : BlockJob) => subDoWork (exec env n) body w ⟨j.sub, j.bd⟩) w jobs with
+          | none => rw [hm] at hn; cases hn
+          | some p =>
+            obtain ⟨rs, w1⟩ := p
+            rw [hm] at hn
+            refine ⟨rs, w1, ?_, (Option.some.inj hn).symm⟩
+            rw [← hsub]
+            exact (hF w rs w1).mp ⟨n, hm⟩
+        · rintro ⟨rs, w1, hj', hr⟩
+          rw [← hsub] at hj'
+          obtain ⟨n, hn⟩ := (hF w rs w1).mpr hj'
+          exact ⟨n, by rw [hn, hr]⟩
+
+/-- the state ParallelDo leaves when no awaited branch raised and `less_than` is a function: the
+circuit of the result chosen by the selection loop over the results in arrival order, and the data
+having become that result's data -/
+theorem parFinish_choice (env : Env) (i : Nat) (s : St) (idxs : List Nat) (jobs : List (Tree × Nat))
+    (rs : List Res) (w2 : World) (first : Res) (rest : List Res)
+    (hno : firstRaised rs = none)
+    (hch : idxs.filterMap (fun i => ((jobs.zip rs).find? (fun jr => jr.1.2 == i)).map (·.2)) = first :: rest) :
+    (parFinish env (.fn i) s idxs jobs rs w2).out = .ok ∧
+    (parFinish env (.fn i) s idxs jobs rs w2).st.circ = (pickBest (env.cond i) first rest).st.circ ∧
+    (parFinish env (.fn i) s idxs jobs rs w2).st.data =
+      s.data.becomeWith env.becomeFields (pickBest (env.cond i) first rest).st.data := by
+  unfold parFinish
+  simp [hno, hch, pickBestM_fn]
+
 end BqVerif.Control
